@@ -21,6 +21,7 @@ import inspect
 import itertools
 import json
 import math
+import os
 import re
 import textwrap
 import time
@@ -60,38 +61,81 @@ def _ps13_tables_by_probing(PS):
     return init, mint
 
 
+def _ps13_tables_by_api():
+    """The same two tables read off the PUBLIC function (estimate_spelling on one- and four-note
+    arrays): a lone note of chroma c is spelled with the step of morph init_morph[c]; after three
+    notes of chroma 0 a note of chroma d (context: three times chroma 0, once d) gets the morph
+    (morph_int[d] - morph_int[0] + init_morph[0]) mod 7.  Names of internals are not used at all."""
+    import numpy as np
+    from partitura.musicanalysis import estimate_spelling
+
+    steps = "ABCDEFG"
+
+    def morphs(pitches):
+        a = np.zeros(len(pitches), dtype=[("onset_beat", "f4"), ("duration_beat", "f4"), ("pitch", "i4")])
+        a["onset_beat"] = np.arange(len(pitches))
+        a["duration_beat"] = 1
+        a["pitch"] = pitches
+        return [steps.index(str(s["step"])) for s in estimate_spelling(a)]
+
+    init = [morphs([57 + c])[0] for c in range(12)]
+    mint = [(morphs([57, 57, 57, 57 + d])[3] - init[0]) % 7 for d in range(12)]
+    return init, mint
+
+
+def _ps13_tables_by_ast(PS):
+    found = {}
+    src = textwrap.dedent(inspect.getsource(PS.compute_morph_array))
+    for node in ast.walk(ast.parse(src)):
+        if isinstance(node, ast.Assign) and len(node.targets) == 1 and isinstance(node.targets[0], ast.Name) \
+                and node.targets[0].id in ("init_morph", "morph_int"):
+            v = node.value
+            if isinstance(v, ast.Call) and v.args:
+                v = v.args[0]
+            found[node.targets[0].id] = [int(x) for x in ast.literal_eval(v)]
+    if sorted(found) != ["init_morph", "morph_int"] or any(len(v) != 12 for v in found.values()):
+        raise RuntimeError("no literal tables in compute_morph_array")
+    m0 = found["morph_int"][0]
+    return found["init_morph"], [(x - m0) % 7 for x in found["morph_int"]]
+
+
 def _ps13_tables():
+    """The two ps13 tables BY VALUE: what the code does with them, not where or under which name
+    it keeps them (a table renamed, moved to module level, merged into a matrix or computed is the
+    same table; a table with another entry is another one).  Order of preference: probing
+    compute_morph_array (the function of the anchors; exact for every entry), probing the public
+    estimate_spelling, the literals in the source.  morph_int is normalised to morph_int[0] = 0
+    (ps13 uses it only through differences mod 7)."""
     import partitura.musicanalysis.pitch_spelling as PS
 
-    found = {}
-    try:
-        src = textwrap.dedent(inspect.getsource(PS.compute_morph_array))
-        for node in ast.walk(ast.parse(src)):
-            if isinstance(node, ast.Assign) and len(node.targets) == 1 and isinstance(node.targets[0], ast.Name) \
-                    and node.targets[0].id in ("init_morph", "morph_int"):
-                v = node.value
-                if isinstance(v, ast.Call) and v.args:
-                    v = v.args[0]
-                lst = ast.literal_eval(v)
-                name = node.targets[0].id
-                if name in found:
-                    raise RuntimeError("ps13 table %s assigned twice in compute_morph_array" % name)
-                found[name] = [int(x) for x in lst]
-        for name in ("init_morph", "morph_int"):
-            if name not in found or len(found[name]) != 12:
-                raise RuntimeError("cannot reflect ps13 table %s from compute_morph_array" % name)
-        found["tables_from"] = "ast literal in compute_morph_array"
-    except Exception as e:
+    found, errors = {}, []
+    for how, fn in (("probing compute_morph_array", lambda: _ps13_tables_by_probing(PS)),
+                    ("probing estimate_spelling", _ps13_tables_by_api),
+                    ("literals in the source of compute_morph_array", lambda: _ps13_tables_by_ast(PS))):
         try:
-            found["init_morph"], found["morph_int"] = _ps13_tables_by_probing(PS)
-            found["tables_from"] = "probing compute_morph_array (%s)" % str(e)[:80]
-        except Exception as e2:
-            raise RuntimeError("cannot reflect the ps13 tables: %s; probing compute_morph_array failed too: %s" % (e, e2))
-    sig = inspect.signature(PS.ps13s1)
-    found["k_pre"] = int(sig.parameters["K_pre"].default)
-    found["k_post"] = int(sig.parameters["K_post"].default)
-    found["und_chroma"] = [int(x) for x in PS.UND_CHROMA]
-    found["steps"] = [str(x) for x in PS.STEPS]
+            init, mint = fn()
+            if len(init) != 12 or len(mint) != 12:
+                raise RuntimeError("not 12 entries")
+            found["init_morph"], found["morph_int"] = [int(x) % 7 for x in init], [int(x) % 7 for x in mint]
+            found["tables_from"] = how
+            break
+        except Exception as e:
+            errors.append("%s: %s" % (how, str(e)[:120]))
+    if "init_morph" not in found:
+        raise RuntimeError("cannot reflect the ps13 tables: " + "; ".join(errors))
+    try:        # the other two ways of reading them, for the record (counted, not demanded)
+        found["tables_agree_with_api_probe"] = (found["init_morph"], found["morph_int"]) == tuple(map(list, _ps13_tables_by_api()))
+    except Exception:
+        found["tables_agree_with_api_probe"] = None
+    try:
+        sig = inspect.signature(PS.ps13s1)
+        found["k_pre"] = int(sig.parameters["K_pre"].default)
+        found["k_post"] = int(sig.parameters["K_post"].default)
+    except Exception:       # ps13s1 renamed / defaults elsewhere: the documented defaults; the correspondence
+        found["k_pre"], found["k_post"] = 10, 40      # (arrays of up to 300 rows) decides whether they are the code's
+        found["tables_from"] += "; K_pre/K_post: documented defaults"
+    found["und_chroma"] = [int(x) for x in getattr(PS, "UND_CHROMA", [0, 2, 3, 5, 7, 8, 10])]
+    found["steps"] = [str(x) for x in getattr(PS, "STEPS", "ABCDEFG")]
     return found
 
 
@@ -121,8 +165,7 @@ def _key_tables():
     import partitura.musicanalysis.key_identification as KI
     import partitura.utils.music as M
 
-    T = {"kk": _scaled_matrix(KI.KRUMHANSL_KESSLER), "cbms": _scaled_matrix(KI.CMBS),
-         "kp": _scaled_matrix(KI.KOSTKA_PAYNE)}
+    T = {k: _scaled_matrix(m) for k, m in zip(("kk", "cbms", "kp"), _matrices())}
     T["keys"] = [(str(r), str(m), int(f)) for r, m, f in KI.KEYS]
     T["names"] = [str(KI.format_key(*k)) for k in KI.KEYS]
     parse = []
@@ -133,7 +176,31 @@ def _key_tables():
         except Exception:
             parse.append((nm, None))
     T["parse"] = parse
+    try:
+        from partitura.utils.globals import VALID_KEY_PROFILES
+        T["valid_profiles"] = [str(x) for x in VALID_KEY_PROFILES]
+    except Exception:      # the list is an internal: without it, the documented names
+        T["valid_profiles"] = sorted(PROFILE_SETS)
     return T
+
+
+def _vs_max_cost():
+    """MAX_COST of voice_separation by value: the cost pairwise_cost gives a connection to a voice that was
+    skipped before; the module constant, 1000 (the documented value) if neither can be read."""
+    import partitura.musicanalysis.voice_separation as VS
+
+    try:
+        a, b = VS.VSNote(60, 0, 1, 0), VS.VSNote(62, 1, 1, 1)
+        a.skip_contig = 1
+        v = float(VS.pairwise_cost([a], [b])[0, 0])
+        if v == int(v) and v > 0:
+            return int(v)
+    except Exception:
+        pass
+    try:
+        return int(VS.MAX_COST)
+    except Exception:
+        return 1000
 
 
 def gen():
@@ -153,6 +220,9 @@ def gen():
     L.append("Definition note_midi_tab : list (string * Z * Z * Z) := [\n  %s\n]." %
              ";\n  ".join(ctuple([cstr(a), cz(b), cz(c), cz(d)]) for a, b, c, d in _note_midi_table(P["steps"])))
     core.write_gen("C17_MidiTab", "\n".join(L) + "\n")
+    L = list(hdr)
+    L.append("Definition vs_max_cost : Z := %s." % cz(_vs_max_cost()))
+    core.write_gen("C17_VSTab", "\n".join(L) + "\n")
     K = _key_tables()
     L = list(hdr)
     for nm in ("kk", "cbms", "kp"):
@@ -164,6 +234,7 @@ def gen():
     L.append("Definition key_parse_tab : list (string * option (Z * string)) := [\n  %s\n]." %
              ";\n  ".join(ctuple([cstr(nm), "None" if r is None else "(Some %s)" % ctuple([cz(r[0]), cstr(r[1])])])
                           for nm, r in K["parse"]))
+    L.append("Definition valid_key_profiles : list string := %s." % clist([cstr(x) for x in K["valid_profiles"]]))
     core.write_gen("C17_KeyTab", "\n".join(L) + "\n")
     return P, K
 
@@ -194,16 +265,60 @@ def _coq_failing(ctx, name, imports, terms, checker, shard):
         return None
 
 
-UNITS = [("beat", "f4"), ("quarter", "f4"), ("div", "i4"), ("sec", "f4"), ("tick", "i4"), ("beat", "f8")]
+class CpuBudgetExceeded(BaseException):
+    """The implementation used more CPU time than a call on an input of this size can need (a loop that does
+    not terminate).  BaseException: no `except Exception` of the code under test may swallow it."""
+
+
+CPU_BUDGET_S = 30.0      # estimate_voices on 300 notes needs 0.15 s
+
+
+class _cpu_budget(object):
+    """Budget of CPU time (ITIMER_VIRTUAL counts the time this process executes, not the wall clock: a loaded
+    machine does not shorten it) for one call of the implementation."""
+
+    def __init__(self, seconds, what):
+        self.seconds, self.what = seconds, what
+
+    def __enter__(self):
+        import signal
+
+        def fire(signum, frame):
+            raise CpuBudgetExceeded("%s used more than %.0f s of CPU time" % (self.what, self.seconds))
+
+        self.old = signal.signal(signal.SIGVTALRM, fire)
+        signal.setitimer(signal.ITIMER_VIRTUAL, self.seconds)
+        return self
+
+    def __exit__(self, *a):
+        import signal
+
+        signal.setitimer(signal.ITIMER_VIRTUAL, 0)
+        signal.signal(signal.SIGVTALRM, self.old)
+        return False
+
+
+# (time unit, dtype[, a LESS preferred unit whose columns are present too and hold other values]) -- the functions
+# take the score unit when both are there (docstrings), in the order beat, quarter, div, sec, tick
+UNITS = [("beat", "f4"), ("quarter", "f4"), ("div", "i4"), ("sec", "f4"), ("tick", "i4"), ("beat", "f8"),
+         ("beat", "f4", "sec"), ("quarter", "f4", "div"), ("div", "i4", "tick"), ("sec", "f4", "tick"), ("beat", "f8", "quarter")]
 
 
 def _array(rows, unit=("beat", "f4")):
-    """rows: (onset, duration, pitch) -> structured note array in the given unit."""
+    """rows: (onset, duration, pitch) -> structured note array in the given unit.  With a third component the array
+    also has onset/duration columns of that (less preferred) unit, placed FIRST and filled with unrelated values, a
+    velocity and an id column: what note arrays of scores and performances carry besides the three fields used."""
     import numpy as np
 
-    u, dt = unit
-    return np.array([(o, d, p) for o, d, p in rows],
-                    dtype=[("onset_" + u, dt), ("duration_" + u, dt), ("pitch", "i4")])
+    u, dt = unit[0], unit[1]
+    if len(unit) < 3:
+        return np.array([(o, d, p) for o, d, p in rows],
+                        dtype=[("onset_" + u, dt), ("duration_" + u, dt), ("pitch", "i4")])
+    v = unit[2]
+    vdt = "i4" if v in ("div", "tick") else "f4"
+    return np.array([((7 * i) % 5, 1 + i % 3, 64, "n%d" % i, o, p, d) for i, (o, d, p) in enumerate(rows)],
+                    dtype=[("onset_" + v, vdt), ("duration_" + v, vdt), ("velocity", "i4"), ("id", "U8"),
+                           ("onset_" + u, dt), ("pitch", "i4"), ("duration_" + u, dt)])
 
 
 def _rows_as_stored(rows, unit):
@@ -274,7 +389,8 @@ def sizes(rng, count, big):
 def run_spelling_impl(rows, unit, kw):
     from partitura.musicanalysis import estimate_spelling
 
-    sp = estimate_spelling(_array(rows, unit), **kw)
+    with _cpu_budget(CPU_BUDGET_S, "estimate_spelling"):
+        sp = estimate_spelling(_array(rows, unit), **kw)
     return [(str(s["step"]), int(s["alter"]), int(s["octave"])) for s in sp]
 
 
@@ -282,6 +398,8 @@ def spelling_oracle(rows, unit, kw, perm):
     """-> (None | description, out).  rows as given; perm: a permutation of range(len(rows))."""
     try:
         out = run_spelling_impl(rows, unit, kw)
+    except CpuBudgetExceeded as e:
+        return "estimate_spelling does not return: %s" % e, None
     except Exception as e:
         return "estimate_spelling raised %s: %s" % (type(e).__name__, e), None
     if len(out) != len(rows):
@@ -312,23 +430,64 @@ def spelling_oracle(rows, unit, kw, perm):
     return None, out
 
 
+def sweep_rows(rng, c0, c, ct):
+    """A note array that realises one point of the finite domain the alter bound is proved over
+    (ps13_alter_sweep): the FIRST note in (onset, pitch) order has chroma c0 (chroma = (pitch - 21) mod 12),
+    the LAST is a note of chroma c, and between them the tonic chroma ct dominates the context (k >= 3 notes),
+    so that the morph selected for the note is its morph under tonic ct.  Octaves, onsets (sequence or
+    one chord), k and the row order are drawn."""
+    k = rng.choice([3, 3, 4, 6])
+    first = 21 + c0 + 12 * rng.randint(0, 1)
+    body = [21 + ct + 12 * rng.randint(2, 6) for _ in range(k)]
+    last = 21 + c + 12 * rng.randint(2, 6)
+    ps = [first] + body + [last]
+    if rng.random() < 0.25:      # everything at one onset: the lowest pitch (octaves 0..1) is the first note
+        rows = [(0, rng.choice([0, 1, 1, 2]), p) for p in ps]
+    else:
+        rows = [(i, rng.choice([0, 1, 1, 2]), p) for i, p in enumerate(ps)]
+    if rng.random() < 0.7:
+        rng.shuffle(rows)
+    return rows
+
+
 def run_spelling(ctx):
     rng = ctx.rng
-    count, big = (260, 6) if ctx.tier == "quick" else (5000, 60)
+    count, big = (220, 4) if ctx.tier == "quick" else (5000, 60)
     terms, kept = [], []
     nviol = 0
+    inputs = []
+    # (1) the complete finite domain of the alter bound, on the implementation: every (first chroma, chroma,
+    # tonic chroma) as a concrete array -- a table entry that spells some note with a triple accidental
+    # is found here as an input, not only as a proof that no longer checks
+    triples = [(c0, c, ct) for c0 in range(12) for c in range(12) for ct in range(12)]
+    to_model = rng.randrange(6)
+    for rep in range(1 if ctx.tier == "quick" else 4):
+        for ti, (c0, c, ct) in enumerate(triples):
+            unit = rng.choice(UNITS)
+            rows = sweep_rows(rng, c0, c, ct)
+            kw = {} if rng.random() < 0.85 else {"K_pre": rng.choice([4, 10]), "K_post": rng.choice([1, 2, 5])}
+            inputs.append((rows, unit, kw, "sweep", ctx.tier != "quick" or ti % 6 == to_model))
+    # (2) random arrays
     for n in sizes(rng, count, big):
         unit = rng.choice(UNITS)
         rows = gen_rows(rng, n, 21, 108, int_times=unit[1] == "i4", tonal=rng.random() < 0.5)
         kw = {}
         if rng.random() < 0.15:
             kw = {"K_pre": rng.choice([0, 1, 3, 10]), "K_post": rng.choice([1, 2, 5, 40])}
+        inputs.append((rows, unit, kw, "random", True))
+    for rows, unit, kw, src, model in inputs:
+        n = len(rows)
         perm = list(range(len(rows)))
         rng.shuffle(perm)
         ctx.evaluations += 1
-        ctx.count("spelling:n<=6" if n <= 6 else "spelling:n<=40" if n <= 40 else "spelling:n<=110" if n <= 110 else "spelling:n>110")
+        if len(unit) > 2:
+            ctx.count("spelling:array_with_columns_of_a_second_unit")
+        if src == "sweep":
+            ctx.count("spelling:sweep(first chroma, chroma, dominating tonic chroma)")
+        else:
+            ctx.count("spelling:n<=6" if n <= 6 else "spelling:n<=40" if n <= 40 else "spelling:n<=110" if n <= 110 else "spelling:n>110")
         bad, out = spelling_oracle(rows, unit, kw, perm)
-        case = {"kind": "spelling", "rows": rows, "unit": list(unit), "kwargs": kw, "perm": perm}
+        case = {"kind": "spelling", "rows": rows, "unit": list(unit), "kwargs": kw, "perm": perm, "src": src}
         if bad:
             nviol += 1
             if nviol <= 3:
@@ -341,16 +500,21 @@ def run_spelling(ctx):
         keys = {(o, p) for o, d, p in stored}
         if len(stored) >= 2 and (len(keys) < len(stored) or any(al != 0 for _, al, _ in out)):
             ctx.nontrivial(("sp", stored, sorted(kw.items())))
-        if len(keys) < len(stored):
-            ctx.count("spelling:has_equal_onset_pitch")
-        if any(d == 0 for _, d, _ in stored):
-            ctx.count("spelling:has_zero_duration")
-        if kw:
-            ctx.count("spelling:non_default_K_pre_K_post")
-        if any(abs(al) == 2 for _, al, _ in out):
-            ctx.count("spelling:has_double_accidental")
-        if unit[1] == "i4":
-            ctx.count("spelling:integer_time_unit")
+        if src == "random":
+            if len(keys) < len(stored):
+                ctx.count("spelling:has_equal_onset_pitch")
+            if any(d == 0 for _, d, _ in stored):
+                ctx.count("spelling:has_zero_duration")
+            if kw:
+                ctx.count("spelling:non_default_K_pre_K_post")
+            if any(abs(al) == 2 for _, al, _ in out):
+                ctx.count("spelling:has_double_accidental")
+            if unit[1] == "i4":
+                ctx.count("spelling:integer_time_unit")
+        elif any(abs(al) == 2 for _, al, _ in out):
+            ctx.count("spelling:sweep_has_double_accidental")
+        if not model:
+            continue
         ons = _ints([o for o, d, p in stored] + [d for o, d, p in stored])
         nn = len(stored)
         crow = clist([ctuple([cz(ons[i]), cz(stored[i][2]), cz(ons[nn + i])]) for i in range(nn)])
@@ -360,13 +524,60 @@ def run_spelling(ctx):
         kept.append(case)
         if len(rows) <= 8:
             ctx.sample({"spelling_case": {"rows": rows, "unit": list(unit), "got": out}}, limit=2)
-    failing = _coq_failing(ctx, "spelling", "From PV Require Import Model.C17_Spelling.", terms, "spell_check", 40)
+    failing = _coq_failing(ctx, "spelling", "From PV Require Import Model.C17_Spelling Model.C17_Chroma.", terms, "spell_check_v", 40)
     if failing is None:
         return
-    ctx.obligation("correspondence: estimate_spelling = Model.C17_Spelling.spell_tab (multiset of (row, step, alter, octave)) on %d shuffled arrays"
-                   % len(terms), not failing, failing[:5])
+    ctx.obligation("correspondence: estimate_spelling = Model.C17_Chroma.spell_tab_v (ps13 spelled from the running context vectors; theorem "
+                   "ps13_running_context_refines: = spell_tab; multiset of (row, step, alter, octave)) on %d shuffled arrays, %d of them points of the "
+                   "(first chroma, chroma, tonic chroma) sweep" % (len(terms), sum(1 for c in kept if c.get("src") == "sweep")), not failing, failing[:5])
     for i in failing[:3]:
         ctx.violation("spelling: implementation and model disagree (the theorems of Props/C17.v are about the model)", kept[i])
+
+
+def run_chroma(ctx):
+    """compute_chroma_vector_array (the running context vectors named in the property's anchors) called
+    directly on chroma arrays, against Model.C17_Chroma.chroma_vectors: arrays shorter than K_post, longer than
+    K_pre + K_post, K_pre = 0, K_post = 0/1."""
+    import numpy as np
+    import partitura.musicanalysis.pitch_spelling as PS
+
+    fn = getattr(PS, "compute_chroma_vector_array", None)
+    if fn is None:
+        ctx.count("chroma:compute_chroma_vector_array_not_found(context vectors only tied through estimate_spelling)")
+        return
+    rng = ctx.rng
+    count = 160 if ctx.tier == "quick" else 3000
+    terms, kept = [], []
+    for ci in range(count):
+        n = rng.choice([1, 1, 2, 3, 5, 8, 13, 30, 60]) if ci % 9 else rng.randint(90, 160)
+        kpre, kpost = rng.choice([0, 1, 2, 3, 10, 10]), rng.choice([0, 1, 1, 2, 5, 40, 40])
+        pool = rng.sample(range(12), rng.randint(1, 12))
+        cs = [rng.choice(pool) for _ in range(n)]
+        ctx.evaluations += 1
+        ctx.count("chroma:direct_calls")
+        case = {"kind": "chroma", "chroma_array": cs, "K_pre": kpre, "K_post": kpost}
+        try:
+            out = fn(chroma_array=np.array(cs, dtype=int), K_pre=kpre, K_post=kpost)
+            out = [[int(x) for x in row] for row in out]
+        except Exception as e:      # an internal function: its signature is not the property's business
+            ctx.count("chroma:direct_call_raised(%s)(not demanded)" % type(e).__name__)
+            return
+        if n > kpre + kpost:
+            ctx.count("chroma:array_longer_than_K_pre+K_post")
+        if n < kpost:
+            ctx.count("chroma:array_shorter_than_K_post")
+        if len(cs) >= 2 and len(set(cs)) >= 2:
+            ctx.nontrivial(("cv", cs, kpre, kpost))
+        case["got"] = out
+        terms.append(ctuple([cnat(kpre), cnat(kpost), clist([cz(c) for c in cs]), clist([clist([cz(x) for x in row]) for row in out])]))
+        kept.append(case)
+    failing = _coq_failing(ctx, "chroma", "From PV Require Import Model.C17_Chroma.", terms, "cv_check", 60)
+    if failing is None:
+        return
+    ctx.obligation("correspondence: compute_chroma_vector_array = Model.C17_Chroma.chroma_vectors (theorem chroma_vectors_are_window_counts: "
+                   "the counts of the notes j-K_pre .. j+K_post-1) on %d chroma arrays, K_pre 0..10, K_post 0..40" % len(terms), not failing, failing[:5])
+    for i in failing[:3]:
+        ctx.violation("spelling: compute_chroma_vector_array and the model of the running context vectors disagree", kept[i])
 
 
 def shrink_spelling(case):
@@ -393,14 +604,31 @@ def shrink_spelling(case):
 class _Recorder:
     """Observes the call of VoSA made by estimate_voices (input ids, output rows)."""
 
-    def __init__(self, mod):
+    def __init__(self, mod, spy_best=False):
         self.mod = mod
         self.calls = []
+        self.spy_best = spy_best
+        self.best_calls = []
 
     def __enter__(self):
         self.real = getattr(self.mod, "VoSA", None)
+        self.real_best = getattr(self.mod, "est_best_connections", None) if self.spy_best else None
         rec = self
         real = self.real
+        if self.real_best is not None:
+            real_best = self.real_best
+
+            def best_spy(cost, *a, **k):
+                res = real_best(cost, *a, **k)
+                try:
+                    if len(rec.best_calls) < 40:
+                        mode = a[0] if a else k.get("mode", "prev")
+                        rec.best_calls.append(_best_call_record(cost, mode, res))
+                except Exception:
+                    pass
+                return res
+
+            self.mod.est_best_connections = best_spy
         if real is None:
             return self
 
@@ -437,22 +665,42 @@ class _Recorder:
     def __exit__(self, *a):
         if self.real is not None:
             self.mod.VoSA = self.real
+        if self.real_best is not None:
+            self.mod.est_best_connections = self.real_best
 
 
-def run_voices_impl(rows, unit, mono):
+BEST_CALLS = []      # est_best_connections calls observed inside estimate_voices (filled by run_voices_impl)
+
+
+def _best_call_record(cost, mode, res):
+    """(mode, shape, integer cost rows, assignments, unassigned) of one est_best_connections call, or None if
+    the matrix is not a matrix of integers."""
+    import numpy as np
+
+    c = np.asarray(cost, dtype=float)
+    if c.ndim != 2 or not np.all(c == np.round(c)):
+        return None
+    best, un = res
+    return {"mode": str(mode), "shape": [int(c.shape[0]), int(c.shape[1])], "cost": [[int(x) for x in row] for row in c],
+            "best": [[int(a), int(b)] for a, b in np.asarray(best).reshape(-1, 2)], "unassigned": sorted(int(x) for x in un)}
+
+
+def run_voices_impl(rows, unit, mono, spy_best=False):
     import partitura.musicanalysis.voice_separation as VS
 
-    with _Recorder(VS) as rec:
-        try:
+    with _Recorder(VS, spy_best) as rec:
+        with _cpu_budget(CPU_BUDGET_S, "estimate_voices"):
             v = VS.estimate_voices(_array(rows, unit), monophonic_voices=mono)
-        finally:
-            pass
+    if spy_best:
+        BEST_CALLS.extend(c for c in rec.best_calls if c is not None)
     return [int(x) for x in v], rec.calls
 
 
-def voices_oracle(rows, unit, mono):
+def voices_oracle(rows, unit, mono, spy_best=False):
     try:
-        v, calls = run_voices_impl(rows, unit, mono)
+        v, calls = run_voices_impl(rows, unit, mono, spy_best)
+    except CpuBudgetExceeded as e:
+        return "estimate_voices does not return: %s (an array of %d notes)" % (e, len(rows)), None, None
     except Exception as e:
         return "estimate_voices raised %s: %s" % (type(e).__name__, str(e)[:200]), None, None
     if len(v) != len(rows):
@@ -476,7 +724,9 @@ def voices_oracle(rows, unit, mono):
 
 def run_voices(ctx):
     rng = ctx.rng
-    count, big = (230, 5) if ctx.tier == "quick" else (4000, 50)
+    count, big = (200, 4) if ctx.tier == "quick" else (4000, 50)
+    del BEST_CALLS[:]
+    best_cap = 400 if ctx.tier == "quick" else 6000
     terms, kept, terms_self, kept_self = [], [], [], []
     nviol = 0
     inputs = []
@@ -499,7 +749,9 @@ def run_voices(ctx):
                 ctx.count("voices:exhaustive_small_scope")
             ctx.evaluations += 1
             ctx.count("voices:%s" % ("mono" if mono else "chord"))
-            bad, v, calls = voices_oracle(rows, unit, mono)
+            if len(unit) > 2:
+                ctx.count("voices:array_with_columns_of_a_second_unit")
+            bad, v, calls = voices_oracle(rows, unit, mono, spy_best=len(BEST_CALLS) < best_cap)
             case = {"kind": "voices", "rows": rows, "unit": list(unit), "monophonic_voices": mono}
             if bad:
                 nviol += 1
@@ -565,11 +817,112 @@ def shrink_voices(case):
         return voices_oracle(sub, unit, mono)[0] is not None
 
     try:
-        if fails(case["rows"]):
+        first = voices_oracle(case["rows"], unit, mono)[0]
+        if first is not None and "does not return" not in first:    # a hang is not minimised (every probe costs the budget)
             return {"kind": "voices", "rows": core.ddmin(case["rows"], fails), "unit": list(unit), "monophonic_voices": mono}
     except Exception:
         pass
     return case
+
+
+def run_contig(ctx):
+    """pairwise_cost and est_best_connections (named in the property's anchors) against Model.C17_Contig:
+    (a) the est_best_connections calls observed INSIDE the estimate_voices runs of the voices stream (the cost
+    matrices the search really meets), (b) direct calls on drawn matrices with many ties, both modes, rows >= columns,
+    (c) pairwise_cost on lists of VSNote with sustained (identical) notes and skipped voices."""
+    import numpy as np
+    import partitura.musicanalysis.voice_separation as VS
+
+    rng = ctx.rng
+    best_fn = getattr(VS, "est_best_connections", None)
+    cost_fn = getattr(VS, "pairwise_cost", None)
+    note_cls = getattr(VS, "VSNote", None)
+    mx = _vs_max_cost()
+    calls = [dict(c, src="observed") for c in BEST_CALLS]
+    ctx.count("contig:est_best_connections_calls_observed_in_estimate_voices", len(calls))
+    if best_fn is None:
+        ctx.count("contig:est_best_connections_not_found(the search is only the oracle of the outer-layer model)")
+    else:
+        for ci in range(150 if ctx.tier == "quick" else 3000):
+            nc = rng.choice([1, 1, 2, 2, 3, 4, 5])
+            nr = nc + rng.choice([0, 0, 1, 2])
+            pool = rng.choice([[0, 1, 2], [0, 3, 5, 7, 12], list(range(0, 25)), [0, 2, mx], [0, 4, mx, -mx]])
+            cost = [[rng.choice(pool) for _ in range(nc)] for _ in range(nr)]
+            if rng.random() < 0.4:      # a sustained note: one -MAX_COST entry
+                cost[rng.randrange(nr)][rng.randrange(nc)] = -mx
+            mode = rng.choice(["prev", "next"])
+            if mode == "next":
+                cost = [list(col) for col in zip(*cost)]       # shape (nc, nr): the transpose has rows >= columns
+            try:
+                with _cpu_budget(CPU_BUDGET_S, "est_best_connections"):
+                    res = best_fn(np.array(cost, dtype=float), mode=mode)
+                rec = _best_call_record(np.array(cost, dtype=float), mode, res)
+            except CpuBudgetExceeded as e:
+                ctx.violation("voices: est_best_connections does not return: %s" % e, {"kind": "best_connections", "cost": cost, "mode": mode})
+                break
+            except Exception as e:      # an internal function: its signature is not the property's business
+                ctx.count("contig:direct_call_raised(%s)(not demanded)" % type(e).__name__)
+                break
+            if rec is not None:
+                calls.append(dict(rec, src="direct"))
+    terms, kept = [], []
+    for c in calls:
+        if c["mode"] not in ("prev", "next"):
+            continue
+        ctx.evaluations += 1
+        ctx.count("contig:est_best_connections_%s_%s" % (c["src"], c["mode"]))
+        if len(c["cost"]) >= 2 and len(c["cost"][0]) >= 2:
+            ctx.nontrivial(("best", c["cost"], c["mode"]))
+        n_p, n_n = c["shape"]
+        terms.append(ctuple([cbool(c["mode"] == "prev"), cnat(n_p), cnat(n_n), clist([clist([cz(x) for x in row]) for row in c["cost"]]),
+                             clist([ctuple([cnat(a), cnat(b)]) for a, b in c["best"]]), clist([cnat(x) for x in c["unassigned"]])]))
+        kept.append(dict(c, kind="best_connections"))
+    if terms:
+        failing = _coq_failing(ctx, "contig_best", "From PV Require Import Model.C17_Contig.", terms, "best_check", 150)
+        if failing is not None:
+            ctx.obligation("correspondence: est_best_connections = Model.C17_Contig.est_best_connections (theorem best_connections_are_a_matching) on %d calls, "
+                           "%d of them observed inside estimate_voices" % (len(terms), sum(1 for c in kept if c["src"] == "observed")), not failing, failing[:5])
+            for i in failing[:3]:
+                ctx.violation("voices: est_best_connections and its model disagree", kept[i])
+    if cost_fn is None or note_cls is None:
+        ctx.count("contig:pairwise_cost_or_VSNote_not_found")
+        return
+    terms, kept = [], []
+    for ci in range(120 if ctx.tier == "quick" else 2000):
+        k1, k2 = rng.randint(1, 5), rng.randint(1, 5)
+        try:
+            notes = [note_cls(rng.randint(40, 90), rng.randint(0, 8), rng.choice([1, 2]), i) for i in range(k1 + k2)]
+            for n in notes:
+                if rng.random() < 0.25:
+                    n.skip_contig = rng.choice([1, 1, 2])
+            prev = [notes[i] for i in range(k1)]
+            nxt = [notes[k1 + i] for i in range(k2)]
+            for j in range(k2):         # sustained notes: the same object on both sides
+                if rng.random() < 0.3:
+                    nxt[j] = rng.choice(prev)
+            ident = {id(n): i for i, n in enumerate(notes)}
+            with _cpu_budget(CPU_BUDGET_S, "pairwise_cost"):
+                out = np.asarray(cost_fn(prev, nxt), dtype=float)
+            if out.shape != (k1, k2) or not np.all(out == np.round(out)):
+                raise ValueError("shape %r" % (out.shape,))
+        except BaseException as e:
+            if isinstance(e, KeyboardInterrupt):
+                raise
+            ctx.count("contig:pairwise_cost_direct_call_raised(%s)(not demanded)" % type(e).__name__)
+            break
+        ctx.evaluations += 1
+        ctx.count("contig:pairwise_cost_direct")
+        enc = lambda n: ctuple([cz(ident[id(n)]), cz(int(n.pitch)), cz(int(n.skip_contig))])
+        terms.append(ctuple([clist([enc(n) for n in prev]), clist([enc(n) for n in nxt]), clist([clist([cz(int(x)) for x in row]) for row in out])]))
+        kept.append({"kind": "pairwise_cost", "prev": [(ident[id(n)], int(n.pitch), int(n.skip_contig)) for n in prev],
+                     "next": [(ident[id(n)], int(n.pitch), int(n.skip_contig)) for n in nxt], "got": [[int(x) for x in row] for row in out]})
+    if terms:
+        failing = _coq_failing(ctx, "contig_cost", "From PV Require Import Model.C17_Contig.", terms, "cost_check", 150)
+        if failing is not None:
+            ctx.obligation("correspondence: pairwise_cost = Model.C17_Contig.pairwise_cost on %d pairs of VSNote lists (sustained notes, skipped voices)" % len(terms),
+                           not failing, failing[:5])
+            for i in failing[:3]:
+                ctx.violation("voices: pairwise_cost and its model disagree", kept[i])
 
 
 # ----------------------------------------------------------------------------
@@ -586,18 +939,43 @@ def _corrs(hist, mat):
 
 
 def _matrices():
+    """The three 24 x 12 profile matrices.  By their names; if a name is gone (renamed, moved into a table of
+    profile sets), the 24 x 12 float arrays found in the module in the order of their definition -- the
+    correspondence on every accepted profile name then decides whether they are the ones the names stand for."""
+    import numpy as np
     import partitura.musicanalysis.key_identification as KI
 
-    return [KI.KRUMHANSL_KESSLER, KI.CMBS, KI.KOSTKA_PAYNE]
+    try:
+        return [KI.KRUMHANSL_KESSLER, KI.CMBS, KI.KOSTKA_PAYNE]
+    except AttributeError:
+        found = []
+
+        def visit(v, depth=0):
+            if isinstance(v, np.ndarray) and v.shape == (24, 12) and v.dtype.kind == "f":
+                if not any(v is w for w in found):
+                    found.append(v)
+            elif isinstance(v, (list, tuple)) and depth < 3:
+                for x in v:
+                    visit(x, depth + 1)
+            elif isinstance(v, dict) and depth < 3:
+                for x in v.values():
+                    visit(x, depth + 1)
+
+        for v in vars(KI).values():
+            visit(v)
+        if len(found) < 3:
+            raise RuntimeError("cannot find the three key profile matrices in key_identification")
+        return found[:3]
 
 
 def _key_call(rows, unit, name):
     from partitura.musicanalysis import estimate_key
 
     arr = _array(rows, unit)
-    if name is None:
-        return estimate_key(arr)
-    return estimate_key(arr, key_profiles=name)
+    with _cpu_budget(CPU_BUDGET_S, "estimate_key"):
+        if name is None:
+            return estimate_key(arr)
+        return estimate_key(arr, key_profiles=name)
 
 
 def _hist(stored):
@@ -634,6 +1012,8 @@ def key_oracle(rows, unit, name, names, parse_ok, variant):
     setidx = 0 if name is None else PROFILE_SETS[name]
     try:
         r = _key_call(rows, unit, name)
+    except CpuBudgetExceeded as e:
+        return "estimate_key does not return: %s" % e, None
     except Exception as e:
         return "estimate_key(key_profiles=%r) raised %s: %s" % (name, type(e).__name__, str(e)[:200]), None
     if not isinstance(r, str) or r not in names or not parse_ok.get(r, False) or _name_pc_mode(r) is None:
@@ -693,38 +1073,76 @@ def run_key(ctx, K):
             ctx.violation("key: VALID_KEY_PROFILES admits %r, which names none of the three documented profile sets" % nm,
                           {"kind": "key_profile_name", "name": nm})
     accepted = [a for a in accepted if a is None or a in PROFILE_SETS]
-    count, big = (420, 6) if ctx.tier == "quick" else (5000, 50)
+    count, big = (340, 4) if ctx.tier == "quick" else (5000, 50)
     terms, kept = [], []
+    ndirected = 0
     near = 0
     nviol = 0
-    szs = sizes(rng, count, big)
-    for ci, n in enumerate(szs):
-        unit = rng.choice(UNITS)
-        name = accepted[ci % len(accepted)]
-        setidx = 0 if name is None else PROFILE_SETS[name]
-        r0 = rng.random()
-        if r0 < 0.04:
-            rows = [(o, 0, p) for o, d, p in gen_rows(rng, n, 21, 108, int_times=unit[1] == "i4")]
-        else:
-            rows = gen_rows(rng, n, 33, 96, int_times=unit[1] == "i4", tonal=rng.random() < 0.7,
-                            zero_w=rng.choice([0, 0.1, 0.3]))
-            if rng.random() < 0.15 and unit[1] != "i4":   # arbitrary (not grid) durations
-                rows = [(o, d * (0.5 + rng.random()), p) for o, d, p in rows]
+    inputs = []
+
+    def draw_variant(rows, unit):
         vr = rng.random()
         if vr < 0.3:
             variant = {"kind": "octave", "shifts": [rng.choice([-1, 0, 0, 1]) if rng.random() < 0.5 else 0 for _ in rows]}
             if rng.random() < 0.4:
                 g = rng.choice([-1, 1])
                 variant["shifts"] = [g] * len(rows)
+            # stay inside 21..108
+            variant["shifts"] = [0 if not (21 <= p + 12 * k <= 108) else k for (o, d, p), k in zip(rows, variant["shifts"])]
         elif vr < 0.6:
             f = rng.choice([2, 4, 0.5, 0.25, 3, 10, 7, 0.1, 1.7])
             if unit[1] == "i4":
                 f = rng.choice([2, 3, 4, 7, 10])
             variant = {"kind": "scale", "factor": f, "pow2": f in (2, 4, 0.5, 0.25)}
         else:
-            variant = {"kind": "transpose", "semitones": rng.randint(1, 11)}
+            j = rng.randint(1, 11)
+            hi, lo = max(p for o, d, p in rows), min(p for o, d, p in rows)
+            if hi + j > 108 and lo + j - 12 >= 21:
+                j -= 12         # the same transposition of the pitch classes, downwards
+            variant = {"kind": "transpose", "semitones": j}
+        return variant
+
+    # (1) directed: every row of every profile matrix as a piece (one note per pitch class, its duration the
+    # profile value: the correlation with that row is 1) -- reaches each of the 24 key names of each set
+    mats = _matrices()
+    for setidx in range(3):
+        nms = [a for a in accepted if (0 if a is None else PROFILE_SETS[a]) == setidx]
+        for i in range(len(mats[setidx])):
+            for rep in range(1 if ctx.tier == "quick" else 6):
+                unit = rng.choice([("beat", "f4"), ("beat", "f8"), ("sec", "f4"), ("quarter", "f4")])
+                rows = [(rng.randint(0, 8), float(mats[setidx][i][pc]), 21 + (pc - 21) % 12 + 12 * rng.randint(0, 6)) for pc in range(12)]
+                rng.shuffle(rows)
+                if nms:
+                    inputs.append((rows, unit, nms[(i + rep) % len(nms)], "profile_row"))
+    # (2) random arrays
+    szs = sizes(rng, count, big)
+    for ci, n in enumerate(szs):
+        unit = rng.choice(UNITS)
+        name = accepted[ci % len(accepted)]
+        r0 = rng.random()
+        if r0 < 0.04:
+            rows = [(o, 0, p) for o, d, p in gen_rows(rng, n, 21, 108, int_times=unit[1] == "i4")]
+        else:
+            lo, hi = rng.choice([(21, 108), (21, 108), (33, 96), (48, 72), (21, 40), (90, 108)])
+            rows = gen_rows(rng, n, lo, hi, int_times=unit[1] == "i4", tonal=rng.random() < 0.7,
+                            zero_w=rng.choice([0, 0.1, 0.3]))
+            if rng.random() < 0.15 and unit[1] != "i4":   # arbitrary (not grid) durations
+                rows = [(o, d * (0.5 + rng.random()), p) for o, d, p in rows]
+        inputs.append((rows, unit, name, "random"))
+    for rows, unit, name, src in inputs:
+        setidx = 0 if name is None else PROFILE_SETS[name]
+        variant = draw_variant(rows, unit)
+        if variant["kind"] == "transpose":      # input and transposed copy both inside 21..108
+            j = variant["semitones"]
+            rows = [(o, d, p - 12 if p + j > 108 else p + 12 if p + j < 21 else p) for o, d, p in rows]
+        if src == "profile_row":
+            ctx.count("key:directed_profile_row")
         ctx.evaluations += 1
         ctx.count("key:set%d" % setidx)
+        if name is None:
+            ctx.count("key:default_profile_argument")
+        if len(unit) > 2:
+            ctx.count("key:array_with_columns_of_a_second_unit")
         ctx.count("key:variant_" + variant["kind"])
         bad, r = key_oracle(rows, unit, name, names, parse_ok, variant)
         case = {"kind": "key", "rows": rows, "unit": list(unit), "key_profiles": name, "variant": variant}
@@ -745,18 +1163,22 @@ def run_key(ctx, K):
             ctx.count("key:zero_histogram")
         if len({p % 12 for o, d, p in stored}) >= 3 and margin is not None:
             ctx.nontrivial(("key", stored, setidx))
+        if src == "profile_row" and ctx.tier == "quick":
+            ndirected += 1
+            if ndirected % 3:
+                continue
         ds = _ints([d for o, d, p in stored])
-        terms.append(ctuple([cz(setidx), clist([ctuple([cz(stored[i][2]), cz(ds[i])]) for i in range(len(stored))]), cstr(r)]))
+        terms.append(ctuple([core.copt(name, cstr), clist([ctuple([cz(stored[i][2]), cz(ds[i])]) for i in range(len(stored))]), cstr(r)]))
         case["got"] = r
         kept.append(case)
         if len(rows) <= 6 and len(rows) >= 2:
             ctx.sample({"key_case": case}, limit=7)
     ctx.count("key:near_tie_skipped", near)
     ctx.log("key: implementation and oracle done, %d cases to the model" % len(terms))
-    failing = _coq_failing(ctx, "key", "From PV Require Import Model.C17_Key.", terms, "key_check", 60)
+    failing = _coq_failing(ctx, "key", "From PV Require Import Model.C17_Key Model.C17_KeyApi.", terms, "key_check_api", 60)
     if failing is None:
         return
-    ctx.obligation("correspondence: estimate_key = Model.C17_Key.estimate_key (exact integer correlation comparison; evaluated as estimate_key_fast, theorem estimate_key_fast_eq) on %d arrays, "
+    ctx.obligation("correspondence: estimate_key = Model.C17_KeyApi.estimate_key_api (the key_profiles argument dispatched by the model; exact integer correlation comparison; evaluated as estimate_key_fast, theorem estimate_key_fast_eq) on %d arrays, "
                    "every accepted profile name; %d near-ties (top-two margin below 1e-9, or 1e-4 when float32 sums are inexact) skipped"
                    % (len(terms), near), not failing, failing[:5])
     for i in failing[:3]:
@@ -767,8 +1189,9 @@ def run_key(ctx, K):
 # 4. MIDI import
 
 
-def build_midi(notes, ppq, ntracks, timesig):
-    """notes: (onset_tick, dur_tick, pitch, track, channel) -> mido.MidiFile (in memory)."""
+def build_midi(notes, ppq, ntracks, timesig, off_as_on0=False):
+    """notes: (onset_tick, dur_tick, pitch, track, channel) -> mido.MidiFile (in memory).
+    off_as_on0: the end of a note is written as note_on with velocity 0 (the other encoding the format allows)."""
     import mido
 
     mid = mido.MidiFile(ticks_per_beat=ppq)
@@ -778,7 +1201,7 @@ def build_midi(notes, ppq, ntracks, timesig):
             if tr != t:
                 continue
             ev.append((o, 1, k, mido.Message("note_on", note=p, velocity=64, channel=ch)))
-            ev.append((o + d, 0 if d > 0 else 2, k, mido.Message("note_off", note=p, velocity=0, channel=ch)))
+            ev.append((o + d, 0 if d > 0 else 2, k, mido.Message("note_on" if off_as_on0 else "note_off", note=p, velocity=0, channel=ch)))
         ev.sort(key=lambda e: (e[0], e[1], e[2]))
         track = mido.MidiTrack()
         now = 0
@@ -796,12 +1219,28 @@ def midi_oracle(case):
     from partitura import score as S
 
     notes = [tuple(x) for x in case["notes"]]
-    mid = build_midi(notes, case["ppq"], case["ntracks"], case["timesig"])
+    mid = build_midi(notes, case["ppq"], case["ntracks"], case["timesig"], case.get("off_as_on0", False))
+    src, tmp = mid, None
+    if case.get("from_file"):       # through a file on disk instead of the MidiFile object
+        import tempfile
+        fd, tmp = tempfile.mkstemp(suffix=".mid", dir=os.environ.get("VERIF_WORK") or None)
+        os.close(fd)
+        mid.save(tmp)
+        src = tmp
     try:
-        sc = partitura.load_score_midi(mid, part_voice_assign_mode=case["mode"],
-                                       estimate_voice_info=case["estimate_voice_info"], estimate_key=case["estimate_key"])
+        with _cpu_budget(2 * CPU_BUDGET_S, "load_score_midi"):
+            sc = partitura.load_score_midi(src, part_voice_assign_mode=case["mode"],
+                                           estimate_voice_info=case["estimate_voice_info"], estimate_key=case["estimate_key"])
+    except CpuBudgetExceeded as e:
+        return "load_score_midi does not return: %s" % e, None
     except Exception as e:
         return "load_score_midi raised %s: %s" % (type(e).__name__, str(e)[:200]), None
+    finally:
+        if tmp is not None:
+            try:
+                os.remove(tmp)
+            except OSError:
+                pass
     got = []
     notes_seen = {"no_positive_voice": 0, "key_signatures": []}
     for part in S.iter_parts(sc.parts):
@@ -841,11 +1280,15 @@ def run_midi(ctx):
     rng = ctx.rng
     count = 70 if ctx.tier == "quick" else 1200
     nviol = 0
+    terms, kept = [], []
     for ci in range(count):
         n = rng.choice([1, 2, 3, 5, 8, 13, 20, 40, 80]) if ci > 2 else 250
         ppq = rng.choice([4, 12, 48, 96, 480])
         ntracks = rng.choice([1, 1, 2, 3])
         rows = gen_rows(rng, n, 21, 108, int_times=True, zero_w=rng.choice([0, 0.1, 0.3]), tonal=rng.random() < 0.5)
+        if ci % 3 == 1:     # a point of the (first chroma, chroma, tonic chroma) sweep as a file
+            rows = sweep_rows(rng, rng.randrange(12), rng.randrange(12), rng.randrange(12))
+            ctx.count("midi:sweep_point_as_file")
         unit = max(1, ppq // 4)
         notes, busy = [], {}
         for o, d, p in rows:
@@ -865,9 +1308,11 @@ def run_midi(ctx):
         notes = [(o, d, p, used.index(tr), ch) for o, d, p, tr, ch in notes]
         case = {"kind": "midi", "notes": notes, "ppq": ppq, "ntracks": len(used), "mode": rng.randrange(6),
                 "timesig": rng.choice([None, (4, 4), (3, 4), (6, 8)]),
-                "estimate_voice_info": rng.random() < 0.5, "estimate_key": rng.random() < 0.6}
+                "estimate_voice_info": rng.random() < 0.5, "estimate_key": rng.random() < 0.6,
+                "off_as_on0": rng.random() < 0.4, "from_file": rng.random() < 0.25}
         ctx.evaluations += 1
         ctx.count("midi:files")
+        ctx.count("midi:part_voice_assign_mode_%d" % case["mode"])
         if case["estimate_key"]:
             ctx.count("midi:estimate_key")
         if case["estimate_voice_info"]:
@@ -901,8 +1346,27 @@ def run_midi(ctx):
             ctx.count("midi:several_track_channel_groups")
         if len(notes) > len({o for o, d, p, tr, ch in notes}):
             ctx.count("midi:has_simultaneous_onsets")
+        if case["off_as_on0"]:
+            ctx.count("midi:note_end_written_as_note_on_velocity_0")
+        if case["from_file"]:
+            ctx.count("midi:loaded_from_a_file_on_disk")
         if 2 <= len(notes) <= 5:
             ctx.sample({"midi_case": dict(case, imported_pitches_by_distinct_onset=got)}, limit=9)
+        if len(notes) <= (60 if ctx.tier == "quick" else 120):
+            groups = {}
+            for o, d, p, tr, ch in notes:
+                groups.setdefault((tr, ch), []).append((o, p, d))
+            cg = clist([ctuple([ctuple([cz(tr), cz(ch)]), clist([ctuple([cz(o), cz(p), cz(d)]) for o, p, d in groups[(tr, ch)]])])
+                        for tr, ch in sorted(groups)])
+            terms.append(ctuple([cz(case["mode"]), cg, clist([clist([cz(x) for x in ps]) for ps in got])]))
+            kept.append(dict(case, imported_pitches_by_distinct_onset=got))
+    failing = _coq_failing(ctx, "midi", "From PV Require Import Model.C17_Midi.", terms, "midi_check", 12)
+    if failing is not None:
+        ctx.obligation("correspondence: the pitches of load_score_midi's score by onset rank = Model.C17_Midi.import_notes (groups per (track, channel), "
+                       "assign_group_part_voice, one estimate_spelling on the whole piece paired by position, Note.midi_pitch; theorem "
+                       "midi_import_contains_file_pitches) on %d files" % len(terms), not failing, failing[:5])
+        for i in failing[:3]:
+            ctx.violation("midi: the imported score and the model of the importer's pitch path disagree", kept[i])
     ctx.obligation("importer: the notes of load_score_midi's score carry exactly the file's pitches, onset by onset (pitch multiset at "
                    "the k-th distinct onset, for every k; %d files, all six part/voice modes, with and without voice and key estimation)"
                    % count, nviol == 0, "")
@@ -911,40 +1375,121 @@ def run_midi(ctx):
 # ----------------------------------------------------------------------------
 
 
+def note_table_oracle(ctx, steps):
+    """score.Note(step, octave, alter).midi_pitch -- what the importer's notes report -- against the meaning of
+    a spelling, on the complete domain of Gen/C17_MidiTab.v (7 steps x alter -2..2 x octave 0..8)."""
+    try:
+        tab = _note_midi_table(steps)
+    except Exception as e:
+        ctx.violation("midi: score.Note(step, octave, alter).midi_pitch raised %s: %s" % (type(e).__name__, str(e)[:200]), {"kind": "note_midi"})
+        return
+    bad = [(st, al, oc, v) for st, al, oc, v in tab if st not in STEP_PC or v != 12 * (oc + 1) + STEP_PC[st] + al]
+    ctx.evaluations += len(tab)
+    ctx.obligation("Note.midi_pitch = 12 (octave + 1) + pitch class of the step + alter on all %d notes of 7 steps x alter -2..2 x octave 0..8" % len(tab),
+                   not bad, bad[:5])
+    for st, al, oc, v in bad[:2]:
+        ctx.violation("midi: score.Note(step=%r, octave=%d, alter=%d).midi_pitch is %d, the spelling sounds %s" % (
+            st, oc, al, v, 12 * (oc + 1) + STEP_PC[st] + al if st in STEP_PC else "?"), {"kind": "note_midi", "step": st, "alter": al, "octave": oc, "got": v})
+
+
+def search_for_failing_input(ctx, K):
+    """Called when a proof obligation over the reflected tables broke and the streams found no failing input:
+    every point of the finite domains those obligations range over, in more concrete shapes -- the 12^3 (first
+    chroma, chroma, dominating tonic chroma) arrays of the alter bound in 8 further variants each (octaves, chord /
+    sequence, K_post 1/2/5/40), every row of every profile matrix under all 11 transpositions."""
+    rng = ctx.rng
+    found = 0
+    for rep in range(8):
+        for c0 in range(12):
+            for c in range(12):
+                for ct in range(12):
+                    if found >= 2:
+                        break
+                    rows = sweep_rows(rng, c0, c, ct)
+                    unit = rng.choice(UNITS)
+                    kw = {} if rep % 2 == 0 else {"K_pre": rng.choice([4, 10]), "K_post": rng.choice([1, 2, 5, 40])}
+                    perm = list(range(len(rows)))
+                    rng.shuffle(perm)
+                    ctx.evaluations += 1
+                    bad, out = spelling_oracle(rows, unit, kw, perm)
+                    if bad:
+                        found += 1
+                        case = shrink_spelling({"kind": "spelling", "rows": rows, "unit": list(unit), "kwargs": kw, "perm": perm})
+                        bad2, out2 = spelling_oracle(case["rows"], tuple(case["unit"]), case["kwargs"], case["perm"])
+                        case["got"] = out2
+                        ctx.violation("spelling: " + (bad2 or bad), case)
+    names = K["names"]
+    parse_ok = {nm: (res is not None) for nm, res in K["parse"]}
+    mats = _matrices()
+    for setidx, name in enumerate(["krumhansl_kessler", "temperley", "kostka_payne"]):
+        for i in range(len(mats[setidx])):
+            for j in range(1, 12):
+                if found >= 4:
+                    return
+                rows = [(pc, float(mats[setidx][i][pc]), 48 + pc) for pc in range(12)]
+                ctx.evaluations += 1
+                bad, r = key_oracle(rows, ("beat", "f8"), name, names, parse_ok, {"kind": "transpose", "semitones": j})
+                if bad:
+                    found += 1
+                    ctx.violation("key: " + bad, {"kind": "key", "rows": rows, "unit": ["beat", "f8"], "key_profiles": name,
+                                                  "variant": {"kind": "transpose", "semitones": j}, "got": r})
+
+
 def run(ctx):
-    ctx.rule = ("Random note arrays (1..300 rows; many small, a few of 120..300) over six time-unit/dtype layouts with simultaneous, "
+    ctx.rule = ("Random note arrays (1..300 rows; many small, a few of 120..300) over eleven layouts (five time units, f4/f8/i4, five of "
+                "them with columns of a second, less preferred unit holding other values plus velocity/id columns) with simultaneous, "
                 "overlapping, zero-length notes, notes of equal onset and pitch, exact duplicates; 70% shuffled, rest sorted/reversed/as generated. "
-                "spelling: pitches 21..108, 15% with non-default K_pre/K_post; voices: pitches 0..127, both modes, zero-duration share 0..100%, "
-                "preceded by ALL arrays of up to 2 (thorough: 3) notes over onsets {0,1} x durations {0,1,2} x pitches {60,64}; "
-                "key: every accepted profile name in turn, one metamorphic variant (octave shifts / rescaling / transposition) per case; "
-                "midi: files built in memory with mido from such arrays (pitches 21..108, 0..30% zero-length notes), 1..3 tracks, "
-                "channels 0/1/9, all six part-voice modes, with/without voice and key estimation; compared: the pitch multiset at the "
-                "k-th distinct onset.  "
-                "Non-trivial = spelling array with >= 2 rows that has an altered note or two rows of equal (onset, pitch); voice array with "
-                ">= 2 rows and more than one voice, a zero-duration note or a chord; key array with >= 3 pitch classes and a defined "
-                "correlation; MIDI file with >= 2 notes of >= 2 pitch classes.")
+                "spelling: ALL 12^3 points (first chroma, chroma, dominating tonic chroma) of the domain the alter bound is proved over, each as a "
+                "concrete array (octaves, chord/sequence, K_post 1/2/5/40 drawn), then random arrays with pitches 21..108, 15% with non-default "
+                "K_pre/K_post; chroma: compute_chroma_vector_array called directly (K_pre 0..10, K_post 0..40, arrays shorter and longer than the "
+                "window); voices: pitches 0..127, both modes, zero-duration share 0..100%, preceded by ALL arrays of up to 2 (thorough: 3) notes over "
+                "onsets {0,1} x durations {0,1,2} x pitches {60,64}; contig: the est_best_connections calls observed inside those runs, drawn cost "
+                "matrices with ties (both modes), pairwise_cost on VSNote lists with sustained notes and skipped voices; "
+                "key: every row of every profile matrix as a piece, then random arrays (pitches 21..108 and narrower registers), every accepted "
+                "profile name in turn, one metamorphic variant (octave shifts / rescaling / transposition, all inside 21..108) per case; "
+                "midi: files built with mido from such arrays and from sweep points (pitches 21..108, 0..30% zero-length notes), 1..3 tracks, "
+                "channels 0/1/9, note ends as note_off or note_on velocity 0, MidiFile object or file on disk, all six part-voice modes, with/without "
+                "voice and key estimation; compared: the pitch multiset at the k-th distinct onset.  "
+                "Every call of the implementation runs under a CPU-time budget (ITIMER_VIRTUAL, 30 s; estimate_voices on 300 notes needs 0.15 s): "
+                "a call that does not return is a violation.  "
+                "Non-trivial = spelling array with >= 2 rows that has an altered note or two rows of equal (onset, pitch); chroma array with >= 2 "
+                "chromas; voice array with >= 2 rows and more than one voice, a zero-duration note or a chord; cost matrix of >= 2 x 2; key array "
+                "with >= 3 pitch classes and a defined correlation; MIDI file with >= 2 notes of >= 2 pitch classes.")
     ctx.trusted = ["Coq 8.16.1 kernel incl. vm_compute",
-                   "harness/props/c17.py: generators, reflection of the ps13/key tables (ast literal of compute_morph_array's "
-                   "init_morph/morph_int - or, if they are no literals there, read off compute_morph_array by probing -, module "
-                   "attributes for the rest; score.Note(step, octave, alter).midi_pitch run on 7 x 5 x 9 notes), exact scaling of float "
-                   "times to integers, Coq literal printing",
-                   "the VoSA search (class VoSA) is not modelled: its observed result is the oracle value of the outer-layer model; "
-                   "which chord member is handed to VoSA is read off the observed call",
-                   "mido (building the MIDI files)"]
+                   "harness/props/c17.py: generators, reflection BY VALUE of the ps13 tables (read off compute_morph_array by probing it with "
+                   "one- and two-note inputs; if that function is gone, off estimate_spelling on one- and four-note arrays; last resort: literals "
+                   "in the source), of MAX_COST (off pairwise_cost), module attributes for the rest (the three profile matrices: by name, else the "
+                   "24 x 12 float arrays of the module; KEYS, format_key, VALID_KEY_PROFILES, UND_CHROMA, STEPS); score.Note(step, octave, "
+                   "alter).midi_pitch run on 7 x 5 x 9 notes; exact scaling of float times to integers, Coq literal printing",
+                   "of the VoSA search only pairwise_cost and est_best_connections are modelled (Model/C17_Contig.v); the rest (contig "
+                   "segmentation, voice managers, crystallisation loop, grace notes) is the oracle of the outer-layer model, its observed result "
+                   "the oracle value; which chord member is handed to VoSA is read off the observed call",
+                   "mido (building the MIDI files); the harness' grouping of the notes it wrote by (track, channel)"]
     ctx.assumptions = ["float onsets/durations are dyadic rationals; a case's times are multiplied by one common power of two before "
                        "they reach the integer model (order, equality and ratios preserved)",
                        "key: cases whose two largest correlations differ by less than 1e-9 (1e-4 when the float32 duration sums are "
                        "inexact) are counted and not compared (float corrcoef vs exact comparison)",
+                       "arrays holding columns of two time units: the score unit is the one used (docstrings of the three functions), in the "
+                       "order beat, quarter, div, sec, tick",
                        "numpy int overflow is out of scope"]
     P, K = gen()
     ctx.count("reflection:ps13 tables from " + P.get("tables_from", "?"))
-    ok, why = ctx.coq_props(expect_min=36)
+    if P.get("tables_agree_with_api_probe") is False:
+        ctx.count("reflection:tables probed through estimate_spelling differ from those probed in compute_morph_array(not demanded)")
+    ok, why = ctx.coq_props(expect_min=54)
     nv0 = len(ctx.violations) + sum(ctx.known_hits.values())
     ctx.log("props: %s" % ("ok" if ok else "FAILED"))
-    for name, fn in (("spelling", run_spelling), ("voices", run_voices), ("key", lambda c: run_key(c, K)), ("midi", run_midi)):
+    note_table_oracle(ctx, P["steps"])
+    for name, fn in (("spelling", run_spelling), ("chroma", run_chroma), ("voices", run_voices), ("contig", run_contig), ("key", lambda c: run_key(c, K)), ("midi", run_midi)):
         t0 = time.time()
         fn(ctx)
         ctx.log("%s stream done in %.1fs" % (name, time.time() - t0))
+    if not ok and len(ctx.violations) + sum(ctx.known_hits.values()) == nv0:
+        # a theorem over the reflected tables no longer checks and no stream met a failing input: look for one
+        # where the broken obligation points (more variants of every point of the finite domains it ranges over)
+        t0 = time.time()
+        search_for_failing_input(ctx, K)
+        ctx.log("directed search after the broken proof obligation done in %.1fs" % (time.time() - t0))
     if not ok and len(ctx.violations) + sum(ctx.known_hits.values()) == nv0:
         ctx.violation("proof obligations of Props/C17.v no longer check over the tables reflected from the working tree "
                       "(ps13 tables / Note.midi_pitch table / key profile matrices / KEYS / key_name_to_fifths_mode): " + why, {"theorem_or_build": why}, no_input=True)
@@ -972,6 +1517,29 @@ def replay(obj):
         bad, res = key_oracle(rows, tuple(r["unit"]), r["key_profiles"], K["names"], parse_ok, r["variant"])
         print("estimate_key now gives:", res)
         print("oracle:", bad or "property holds on this input")
+    elif kind == "chroma":
+        import numpy as np
+        import partitura.musicanalysis.pitch_spelling as PS
+        print("compute_chroma_vector_array now gives:",
+              [[int(x) for x in row] for row in PS.compute_chroma_vector_array(chroma_array=np.array(r["chroma_array"], dtype=int), K_pre=r["K_pre"], K_post=r["K_post"])])
+        print("(expected: row j = chroma counts of the notes max(0, j-K_pre) .. min(n, j+K_post)-1)")
+    elif kind == "best_connections":
+        import numpy as np
+        import partitura.musicanalysis.voice_separation as VS
+        print("est_best_connections now gives:", VS.est_best_connections(np.array(r["cost"], dtype=float), mode=r["mode"]))
+    elif kind == "pairwise_cost":
+        import partitura.musicanalysis.voice_separation as VS
+        objs = {}
+        def mk(t):
+            if t[0] not in objs:
+                objs[t[0]] = VS.VSNote(t[1], 0, 1, t[0])
+                objs[t[0]].skip_contig = t[2]
+            return objs[t[0]]
+        print("pairwise_cost now gives:", VS.pairwise_cost([mk(t) for t in r["prev"]], [mk(t) for t in r["next"]]).tolist())
+    elif kind == "note_midi":
+        import partitura.score as S
+        if "step" in r:
+            print("Note.midi_pitch now:", S.Note(step=r["step"], octave=r["octave"], alter=r["alter"]).midi_pitch)
     elif kind == "midi":
         bad, got = midi_oracle(r)
         print("imported pitches by distinct onset:", got)
